@@ -259,7 +259,8 @@ def gen_main(rng, n):
         kind = k % 3
         if kind == 2:
             st = coll.pop() if coll and rng.chance(1, 3) else c09.rand_state(rng, adversarial=rng.chance(1, 3))
-            lines.append(c09.line(st, "-", "r"))
+            # the digest table of the line is an input like any other: any function of the content will do here
+            lines.append(c09.mline(st, "-", lambda c: "h%d:" % len(c) + c[::-1][:6]))
             continue
         cur, shape = rng.choice(c17.CURS + extra_curs), rng.below(10)
         pkg, nm = rng.choice(c17.UNIV_PKGS + ["a/..", "x"]), rng.choice(c17.UNIV_NAMES + ["a.b-c_D9", "a b", ""])
@@ -295,7 +296,7 @@ def conv_main(line, st):
     if f[0] == "key":
         _algo, _root, pkg, name, cmd, ins, files, outs, deps, fp, multi = f[1:]
         return app("CKey", gh(pkg), gh(name), gh(cmd), gl([gh(x) for x in csv(ins)]),
-                   gl([gpair(gh(p), gopt(None if c == "!" else gh(c))) for p, c in pairs(files)]),
+                   gl([gpair(gh(e[0]), gopt(None if e[1] == "!" else gpair(gh(e[1]), gh(e[2])))) for e in pairs(files)]),
                    gl([gpair(gh(t), gh(i)) for t, i in pairs(outs)]), gl([gh(x) for x in csv(deps)]),
                    gl([gpair(gh(k), gh(v)) for k, v in pairs(fp)]), gb(multi == "1"))
     raise Unsupported(f[0])
